@@ -27,3 +27,7 @@ void *_ZNSo9_M_insertIbEERSoT_(void *o, _Bool v) { (void)v; return o; }
 void *_ZNSo3putEc(void *o, uint8_t c) { (void)c; return o; }
 void *_ZNSo5flushEv(void *o) { return o; }
 void *_ZSt4endlIcSt11char_traitsIcEERSt13basic_ostreamIT_T0_ES6_(void *o) { return o; }
+uint8_t _ZNKSt9basic_iosIcSt11char_traitsIcEE4fillEv(void *ios) { (void)ios; return ' '; }
+uint8_t _ZNSt9basic_iosIcSt11char_traitsIcEE4fillEc(void *ios, uint8_t c) { (void)ios; (void)c; return ' '; }
+void *_ZNSolsEPFRSt8ios_baseS0_E(void *o, void *manip) { (void)manip; return o; }
+void *_ZNSolsEPFRSoS_E(void *o, void *manip) { (void)manip; return o; }
